@@ -23,7 +23,7 @@ func TestVerif(t *testing.T) {
 		Rule: "scenario = curated DAG shape x Concurrency x API (CopyGraph, Copy, ExtendedCopyGraph; CopyGraph into a destination that can mount (mounted / copied after all is an input choice; candidate lists: two, one twice, one and a blank); for shapes with two or more referrers also ExtendedCopyGraph with FilterAnnotation and with FilterArtifactType, whose manifest reads are fault points too) x pre-population; choice tree = goroutine schedules x fault answers " +
 			"(normal | error before effect (a failed source Fetch also matches errdef.ErrNotFound: the source no longer has the content) | cancel context | error after effect (Push)) at every Fetch/Exists/Push/Predecessors/callback invocation, enumerated within " +
 			"the bound vector (F faults, D schedule deviations). Monitor: link-closure at every completed destination Push; oracle: faulted or cancelled call returns non-nil, " +
-			"no deadlock/livelock, fault-free retry on the same destination completes the graph. non-trivial = execution with at least one injected fault",
+			"no deadlock/livelock, fault-free retry on the same destination with the same options value completes the graph. non-trivial = execution with at least one injected fault",
 		Assumptions: []string{
 			"faults are placed at the operation kinds the property lists; Tag/Resolve are not fault points",
 			"'bounded time' is decided as: no deadlock and within the step horizon; wall-clock is never an oracle",
@@ -154,8 +154,17 @@ func mkJob(s scen, b explore.Bounds, nsh int) []driver.Job {
 	return out
 }
 
-func (s scen) call(ctx context.Context, w *World, srcM, dstM *memory.Store, faults bool) error {
+// callMemo carries what a caller would naturally reuse when it runs the same call again after a
+// failure: the options value (with whatever the library keeps inside it, e.g. the FindPredecessors
+// closure a filter installs). w is the world of the call in progress; the callbacks consult it.
+type callMemo struct {
+	w  *World
+	eo *oras.ExtendedCopyGraphOptions
+}
+
+func (s scen) call(ctx context.Context, w *World, srcM, dstM *memory.Store, faults bool, memo *callMemo) error {
 	d := s.d
+	memo.w = w
 	src := &SrcTarget{Src: Src{W: w, Inner: srcM}, R: srcM, P: srcM}
 	var dst oras.Target = &Dst{W: w, Inner: dstM}
 	var mountEvents []string
@@ -170,6 +179,7 @@ func (s scen) call(ctx context.Context, w *World, srcM, dstM *memory.Store, faul
 			if id := d.Find(desc); id >= 0 {
 				nm = d.Nodes[id].Name
 			}
+			w := memo.w
 			if w.Faults {
 				switch vs.ChooseAt(3, vs.KFault, kind+"("+nm+")") {
 				case AErrBefore:
@@ -207,14 +217,18 @@ func (s scen) call(ctx context.Context, w *World, srcM, dstM *memory.Store, faul
 		_, err := oras.Copy(ctx, src, "ref", dst, "", oras.CopyOptions{CopyGraphOptions: opts})
 		return err
 	default:
-		eo := oras.ExtendedCopyGraphOptions{CopyGraphOptions: opts}
-		switch s.api {
-		case "ext-fann":
-			eo.FilterAnnotation("verif.key", nil)
-		case "ext-ftype":
-			eo.FilterArtifactType(regexp.MustCompile("."))
+		if memo.eo == nil {
+			eo := oras.ExtendedCopyGraphOptions{CopyGraphOptions: opts}
+			switch s.api {
+			case "ext-fann":
+				eo.FilterAnnotation("verif.key", nil)
+			case "ext-ftype":
+				eo.FilterArtifactType(regexp.MustCompile("."))
+			}
+			memo.eo = &eo
 		}
-		return oras.ExtendedCopyGraph(ctx, src, dst, desc, eo)
+		// the retry passes the very same options value
+		return oras.ExtendedCopyGraph(ctx, src, dst, desc, *memo.eo)
 	}
 }
 
@@ -241,12 +255,13 @@ func (s scen) make(last **World) (func(), func(*vs.Result) *driver.Fail) {
 	body := func() {
 		ctx, cancel := context.WithCancelCause(context.Background())
 		w.Cancel = cancel
-		err1 = s.call(ctx, w, srcM, dstM, true)
+		memo := &callMemo{}
+		err1 = s.call(ctx, w, srcM, dstM, true, memo)
 		cancel(nil)
 		vs.Freeze()
 		if err1 != nil {
 			retried = true
-			err2 = s.call(context.Background(), w2, srcM, dstM, false)
+			err2 = s.call(context.Background(), w2, srcM, dstM, false, memo)
 		}
 	}
 	check := func(res *vs.Result) *driver.Fail {
